@@ -102,7 +102,7 @@ func recordStoreOpsCreated(store workflow.RecordStore, ops []string, withCreated
 		f := strings.Split(op, ".")
 		switch f[0] {
 		case "S", "SB":
-			obj, _ := json.Marshal(Obj{Seed: atoi(f[6])})
+			obj, _ := json.Marshal(newObj(atoi(f[6])))
 			fid := "f" + f[2]
 			if f[0] == "SB" {
 				// a foreign ID that is not valid UTF-8: the outbox entry cannot be encoded (protobuf string field), so Store
